@@ -92,8 +92,8 @@ def r_c13_field_order_fixedstruct(s4, repo, scratch):
     rc1, out_never, _ = run_s4(s4, ['--color', 'never', '-n', '-u', f])
     rc2, out_always, _ = run_s4(s4, ['--color', 'always', '-n', '-u', f])
     plain = ANSI.sub(b'', out_always)
-    l1 = [l.strip() for l in out_never.split(b'\n') if b'ut_type' in l]
-    l2 = [l.strip() for l in plain.split(b'\n') if b'ut_type' in l]
+    l1 = [l.strip(b' \t\r\x00') for l in out_never.split(b'\n') if b'ut_type' in l]
+    l2 = [l.strip(b' \t\r\x00') for l in plain.split(b'\n') if b'ut_type' in l]
     starts_with_file = all(l.startswith(b'host-entry6.wtmp') for l in l1)
     return {'name': 'C13.field_order_fixedstruct', 'input': f, 'how_made': 'file from the repository',
             'cmd': '%s --color never -n -u %s' % (s4, f),
